@@ -61,8 +61,10 @@ CHECKS['C15'] = dict(
     text='Machine-checked for tag-free histories: C15_idempotent_last_plain (repeating a well-formed last document gives a tree of equal content, or both builds fail), '
          'C15_empty_neutral_plain (an empty mapping document anywhere after the first is neutral), C15_update_idempotent (the reference update is idempotent; proof by fixpoint lemmas '
          'over key-unique mappings and index-addressed lists), C15_unsafe_marks_neutral_plain (whatever !unsafe / inherited / source-level safety marks each document carries on all of '
-         'its nodes, the merged data is the same), all lifted to the model of Builder.flatten through the C02 refinement. Partial: for tagged histories (priorities, !del, !merge), for marks '
-         'on inner nodes only, and for the key-order and !new neutrality clauses the verdict comes from the correspondence (incl. exhaustive T2 sweeps of _get_child_kwargs and _propagate_implicit_values, '
+         'its nodes, the merged data is the same), C15_unsafe_marks_anywhere_neutral (!unsafe marks, !metadata without priority, source-level safety and source names placed on ANY nodes of '
+         'otherwise tag-free documents, as the loader model builds them, never change the merged data or the outcome - by the generalised refinement Proofs/MergeGen.v), '
+         'all lifted to the model of Builder.flatten through the C02 refinement. Partial: for tagged histories (priorities, !del, !merge) '
+         'and for the key-order and !new neutrality clauses the verdict comes from the correspondence (incl. exhaustive T2 sweeps of _get_child_kwargs and _propagate_implicit_values, '
          'the two procedures whose disagreement was defect D16) and five metamorphic oracles; determinism of the functional model is trivial and is checked on the implementation by building twice.',
     design='4 (C15), 6 (D16, D18)',
     technique='Coq proofs of idempotence / neutrality of the update fold lifted by refinement; exhaustive + sampled vm_compute correspondence; metamorphic oracles (twice, repeat-last, empty, permute, mark) for replays')
@@ -77,9 +79,9 @@ CHECKS['C08'] = dict(
          'when a key is missing or an index lies beyond the end (the override document of the model is tied to the parsed document of the real command line on all raw flags). '
          'C08_notnew_is_update_without_new_paths: the GLOBAL statement for tag-free content - any number of tag-free mapping documents followed by ANY tag-free mapping document marked '
          '!notnew at its root (as the loader builds it) flattens to Spec.UpdateNN.upd_nn of the config built so far: the same content when that no-new-path update succeeds, a MergeError '
-         'otherwise; C08_no_new_path: every path of the result is a path of the config built so far; C08_notnew_agrees_with_plain_merge: when it succeeds it is the ordinary update. '
+         'otherwise; C08_notnew_stages_anywhere: the same with !notnew stages ANYWHERE in a sequence whose other stages are free of priority / delete / new tags (any safety marks); C08_no_new_path: every path of the result is a path of the config built so far; C08_notnew_agrees_with_plain_merge: when it succeeds it is the ordinary update. '
          'The spec upd_nn is additionally tied directly to Builder.build by correspondence (data or MergeError). '
-         'Partial: for overlays / bases that carry further tags (priorities, !del, nested !new, function nodes, list operators) and for a !notnew stage that is not the last one the '
+         'Partial: for overlays / bases that carry further tags (priorities, !del, nested !new, function nodes, list operators) the '
          'statement "no path exists afterwards that did not exist before" is decided by the correspondence and by the reference oracles (path-existence rule; negative indices), not by a theorem.',
     design='4 (C08)',
     technique='Coq refinement proof (merge of a !notnew overlay = no-new-path update, by induction on fuel / documents) + lemmas on the creation gate of the merge loop + exhaustive flag correspondence + sampled merge / spec correspondence; path-existence and command-line oracles for replays')
